@@ -86,7 +86,7 @@ func main() {
 	a := common.ParseArgs()
 	run := common.NewRun(a, "C20", "HV.Addr.Name")
 	thorough := a.Tier == "thorough"
-	run.Meta.Rule = "address cases: a name triple (ASCII and multi-byte UTF-8, empty parts, parts containing '/', NUL, '*'; total length 0..300 crossing the 4/8/32-byte XXH64 regimes), an island count N in {1,2,10,999,1000,65535} or larger (SDK only), depth 0..10, folders per level in {1,2,16,255,256,1000,4096,65536}: island ids from fresh SDK and server name objects, the full hash path or its panic; plus reused-object (cache) cases, Load of arbitrary paths, separator-alias pairs, SDK routing-table lookups and name-object programs (builder chains with shared prefix objects, island / path / Get queries on prefixes, siblings and the same object again, Load, out-of-order builder calls); non-trivial = key of 32+ bytes, non-ASCII/empty/separator parts, N >= 65536, depth*charsPerLevel beyond the hash string, or any cache/load/alias/route/program case"
+	run.Meta.Rule = "address cases: a name triple (ASCII and multi-byte UTF-8, empty parts, parts containing '/', NUL, '*'; total length 0..300 crossing the 4/8/32-byte XXH64 regimes), an island count N in {1,2,10,999,1000,65535} or larger (SDK only), depth 0..10, folders per level in {1,2,16,255,256,1000,4096,65536}: island ids from fresh SDK and server name objects, the full hash path or its panic; plus reused-object (cache) cases, Load of arbitrary paths, separator-alias pairs, SDK routing-table lookups, client-over-time sequences (Connect-style refills of the routing table with lookups in between: same name again through kept / fresh / prefix-derived name objects, different names sharing one Path string, both lookup functions) and name-object programs (builder chains with shared prefix objects, island / path / Get queries on prefixes, siblings and the same object again, Load, out-of-order builder calls); non-trivial = key of 32+ bytes, non-ASCII/empty/separator parts, N >= 65536, depth*charsPerLevel beyond the hash string, or any cache/load/alias/route/route-sequence/program case"
 	slog.SetDefault(slog.New(slog.NewTextHandler(io.Discard, nil)))
 	rng := common.NewRng(a.Seed, "C20")
 
@@ -94,9 +94,9 @@ func main() {
 	bigNs := []uint64{65536, 1000000, 1 << 40, ^uint64(0)}
 	maxfs := []int{1, 2, 16, 255, 256, 1000, 4096, 65536}
 
-	nAddr, nLong, nCache, nLoad, nAlias, nRoute, nProg := 650, 40, 120, 120, 80, 150, 250
+	nAddr, nLong, nCache, nLoad, nAlias, nRoute, nProg, nRouteSeq := 650, 40, 120, 120, 80, 150, 250, 150
 	if thorough {
-		nAddr, nLong, nCache, nLoad, nAlias, nRoute, nProg = 12000, 600, 1500, 1500, 1000, 1500, 4000
+		nAddr, nLong, nCache, nLoad, nAlias, nRoute, nProg, nRouteSeq = 12000, 600, 1500, 1500, 1000, 1500, 4000, 3000
 	}
 
 	addr := func(t triple, n uint64, depth, maxf int, island uint64, kind string) {
@@ -439,6 +439,127 @@ func main() {
 		run.Add(common.App("CProg", common.List(terms)), map[string]interface{}{"kind": "name-object program", "steps": hum}, true)
 		run.Hist("prog")
 		run.HistN("prog_steps", len(terms))
+	}
+	// one client over time: Connect-style (re)fills of the routing table and lookups in between -
+	// the same name again (fresh and reused name objects), different names with one canonical
+	// Path string (a '/' inside a part), prefix objects, both lookup functions
+	for c := 0; c < nRouteSeq; c++ {
+		n := uint64(2 + rng.Intn(80))
+		nhosts := 0
+		var terms []string
+		var hum []string
+		genServers := func() []*client.Server {
+			k := 1 + rng.Intn(3)
+			var servers []*client.Server
+			var tt []string
+			var th []string
+			split := uint64(1 + rng.Intn(int(n)))
+			for s := 0; s < k; s++ {
+				lo := uint64(1 + rng.Intn(int(n)))
+				hi := lo + uint64(rng.Intn(int(n)))
+				if k == 2 && rng.Chance(50) { // two servers splitting 1..n
+					if s == 0 {
+						lo, hi = 1, split
+					} else {
+						lo, hi = split+1, n
+					}
+				}
+				servers = append(servers, &client.Server{Host: fmt.Sprintf("%d", nhosts), FromIsland: lo, ToIsland: hi})
+				tt = append(tt, common.Pair(common.N(uint64(nhosts)), common.Pair(common.N(lo), common.N(hi))))
+				th = append(th, fmt.Sprintf("host %d: islands %d..%d", nhosts, lo, hi))
+				nhosts++
+			}
+			terms = append(terms, common.App("RFill", common.List(tt)))
+			hum = append(hum, "fill routing table: "+strings.Join(th, "; "))
+			return servers
+		}
+		cl := client.NewWithRoutingTableAndClients(genServers(), n)
+		// a small population of names: alias groups share one Path string
+		var pop []triple
+		for len(pop) < 6 {
+			if rng.Chance(50) {
+				x, y, z, w := genPart(rng, 1+rng.Intn(4), false), genPart(rng, 1+rng.Intn(4), false), genPart(rng, 1+rng.Intn(4), false), genPart(rng, 1+rng.Intn(4), false)
+				pop = append(pop, triple{x + "/" + y, z, w}, triple{x, y + "/" + z, w}, triple{x, y, z + "/" + w})
+			} else {
+				pop = append(pop, genTriple(rng, 3+rng.Intn(12), rng.Chance(20)))
+			}
+		}
+		if rng.Chance(30) {
+			pop = append(pop, triple{pop[0].S, pop[0].R, ""}, triple{pop[0].S, "", ""}) // prefix-shaped names
+		}
+		held := map[int]sdkname.Name{}
+		lookup := func(i int) {
+			t := pop[i]
+			var nm sdkname.Name
+			switch rng.Intn(3) {
+			case 0:
+				if held[i] == nil {
+					held[i] = t.sdk()
+				}
+				nm = held[i] // a name object the caller keeps
+			case 1:
+				nm = sdkname.New().Sanctuary(t.S).Realm(t.R).Swamp(t.W)
+			default:
+				base := sdkname.New().Sanctuary(t.S).Realm(t.R) // shared prefix, itself routed first
+				if rng.Chance(50) {
+					cl.GetServiceClient(base)
+				}
+				nm = base.Swamp(t.W)
+			}
+			withHost := rng.Chance(50)
+			var host *uint64
+			if withHost {
+				if sc := cl.GetServiceClientAndHost(nm); sc != nil {
+					var h uint64
+					fmt.Sscanf(sc.Host, "%d", &h)
+					host = &h
+				}
+			} else {
+				if sc := cl.GetServiceClient(nm); sc != nil {
+					if hs, ok := client.HostOfServiceClient(sc); ok {
+						var h uint64
+						fmt.Sscanf(hs, "%d", &h)
+						host = &h
+					}
+				}
+			}
+			terms = append(terms, common.App("RLookup", common.Nat(i), common.Bool(withHost), optN(host)))
+			fn := "GetServiceClient"
+			if withHost {
+				fn = "GetServiceClientAndHost"
+			}
+			hd := "nil"
+			if host != nil {
+				hd = fmt.Sprintf("host %d", *host)
+			}
+			hum = append(hum, fmt.Sprintf("%s(%q,%q,%q) [Get()=%q, island %d] -> %s", fn, t.S, t.R, t.W, nm.Get(), t.sdk().GetIslandID(n), hd))
+		}
+		steps := 10 + rng.Intn(16)
+		for k := 0; k < steps; k++ {
+			if rng.Chance(12) {
+				client.RefillRoutingTable(cl, genServers())
+				// right after a refill: names already seen are asked again
+				for i := range pop {
+					if rng.Chance(50) {
+						lookup(i)
+					}
+				}
+				continue
+			}
+			i := rng.Intn(len(pop))
+			lookup(i)
+			if rng.Chance(40) && i+1 < len(pop) {
+				lookup(i + 1) // its neighbour: in an alias group the same Path string
+			}
+		}
+		var popT []string
+		for _, t := range pop {
+			popT = append(popT, t.coq())
+		}
+		run.Add(common.App("CRouteSeq", common.N(n), common.List(popT), common.List(terms)),
+			map[string]interface{}{"kind": "client routing over time", "islands": n, "steps": hum}, true)
+		run.Hist("route_seq")
+		run.HistN("route_seq_steps", len(terms))
 	}
 	run.Shard = (run.Meta.Evaluations + 7) / 8
 	run.Meta.Traces = run.Meta.Evaluations
